@@ -325,7 +325,7 @@ for col, cname in [("w", "White"), ("b", "Black")]:
         f"expand_piece_targets for {cname}: one Standard move per target bit (<=27), origin preserved, capture tag == enemy piece on the destination, appended after existing entries, no duplicates",
         ["expand_piece_targets", "PieceSet::get", "Bitboard::pop_lsb"], "fully symbolic Disjoint board; one symbolic (square, targets) entry with <=27 targets disjoint from own pieces", stubs=[NOSPILL], module=MG, unwind=30, est_s=400, heavy=True, native=[])
     add(f"c01_slider_{col}", ["C01", "C06"], "thorough",
-        f"generate_sliding_targets for {cname} (k-piece shape: own king + <=3 further own pieces of symbolic kind and square, opponent side fully symbolic): one entry per own rook/bishop/queen with targets == lookup(square) minus own pieces (queen: rook|bishop lookup), nothing for other pieces, lookups given the whole-board occupancy",
+        f"generate_sliding_targets for {cname} (k-piece shape: own king + <=2 further own pieces of symbolic kind and square, opponent side fully symbolic): one entry per own rook/bishop/queen with targets == lookup(square) minus own pieces (queen: rook|bishop lookup), nothing for other pieces, lookups given the whole-board occupancy",
         ["Targets::generate_sliding_targets"], "k-piece shape, see claim", stubs=[NOSPILL, UFSTUB], module=MG, unwind=66, est_s=600, heavy=True, native=[])
     for pc in ["knight", "king"]:
         add(f"c01_leaper_{pc}_{col}", ["C01", "C06"], "thorough",
